@@ -90,6 +90,9 @@ func MatrixPostProcessors(script *logql_parser.LogQLScript,
 	if err != nil {
 		return nil, err
 	}
+	if duration <= 0 {
+		return nil, &shared.NotSupportedError{Msg: "the range of a metric query must be positive"}
+	}
 	proc = &ZeroEaterPlanner{internal_planner.GenericPlanner{proc}}
 	proc = &FixPeriodPlanner{
 		Main:     proc,
